@@ -62,10 +62,10 @@ func nameArg(a value) string {
 	return "anon"
 }
 
-var harnessAPI map[string]externalFn
+var harnessAPI = map[string]externalFn{}
 
 func init() {
-	harnessAPI = map[string]externalFn{
+	for k, v := range map[string]externalFn{
 		"verifInt":     func(fr *frame, a []value) value { return fr.i.newVar(nameArg(a[0]), "int", types.Int) },
 		"verifInt64":   func(fr *frame, a []value) value { return fr.i.newVar(nameArg(a[0]), "int64", types.Int64) },
 		"verifInt32":   func(fr *frame, a []value) value { return fr.i.newVar(nameArg(a[0]), "int32", types.Int32) },
@@ -174,6 +174,8 @@ func init() {
 			return nil
 		},
 		"verifIsSymbolicRun": func(fr *frame, a []value) value { return true },
+	} {
+		harnessAPI[k] = v
 	}
 }
 
